@@ -26,7 +26,7 @@ def run(an: Analysis, rep):
     rep.rule("R05.2", "the encoder consumes every public field", 20)
     rep.rule("R05.3", "docstring slot guards over the finite guard domain", 2)
     from .common import purity
-    rep.run(purity, an, rep, "R05.P", ["normalize", "to_code"])
+    rep.run(purity, an, rep, "R05.P", ["from_code", "normalize", "to_code"])
     fn, p, arms, fall_identity = parse_normalize(an)
     dcs = data_classes(an)
     for ci in dcs:
@@ -112,6 +112,8 @@ def run(an: Analysis, rep):
     rep.run(c04.r044, an, sha)
     rep.run(c06.reset_rules, an, SharedRules(rep, "R05.Z", "normalize strips every positional artefact together (shared with C06's R06.1/R06.2): an override kept on one kind of table entry while the list of "
                                                            "unreferenced entries is dropped leaves a gap in that table, and normalize(x).to_code() raises instead of giving an equivalent code object"))
+    rep.run(c06.r06n, an, SharedRules(rep, "R05.Y", "normalize folded over witness data full of artefacts (shared with C06's R06.N): every public field - instructions, operands, jump targets, lines, "
+                                                   "signature, docstring, free variables, names - comes back as given, at every depth; only private fields change"))
     she = SharedRules(rep, "R05.E", "the encoder's layout and table folded over witness block lists without overrides - the data normalize returns (shared with C03's R03.E / R03.T / R03.Y): "
                                     "the code written for it reads back as the same instructions, operands and jump structure")
     rep.run(c03.r03e, an, she)
